@@ -28,10 +28,12 @@ ASSUMPTIONS = [
 ]
 TRUSTED = ["CPython asyncio (real, on a virtual clock)", "vt.sym explorer", "recording stubs in vt/props/_recv.py"]
 BOUNDS = {"messages": "1 (all configurations); 2 concurrent (2 outcomes quick / all 6 thorough); 3 concurrent (thorough, reduced)", "middlewares": "<= 1", "timer ticks": "<= 6"}
-REQUIRED_COVERS = ["when_received", "when_executed", "when_saved", "async_ack", "sync_ack", "timeout_fired", "no_result", "backend_failed", "pair_interleaved", "post_save_raises", "same_task_id"]
+REQUIRED_COVERS = ["when_received", "when_executed", "when_saved", "async_ack", "sync_ack", "timeout_fired", "no_result", "backend_failed", "pair_interleaved", "post_save_raises", "same_task_id", "via_listen"]
 
 
-def cases(tier: str) -> List[Any]:
+def cases(tier: str, hname: str = "harness") -> List[Any]:
+    if hname == "via_listen":
+        return [{"M": 3, "K": 5 if tier == "quick" else 6, "prefix": [p], "cfg": cfg} for p in range(3) for cfg in ("quota", "plain")]
     out: List[Any] = []
     for ack in _cb.ACKS:
         out.append({"n": 1, "ack": ack, "async_ack": "future"})
@@ -121,3 +123,28 @@ def harness(c: sym.Ctx, case: Dict[str, Any]) -> None:
 
 def budget(tier: str) -> Dict[str, Any]:
     return {"max_paths": 400000, "budget_s": 600 if tier == "quick" else 3000}
+
+
+def via_listen(c: sym.Ctx, case: Dict[str, Any]) -> None:
+    """exactly one acknowledgement per delivered message also when the messages come through Receiver.listen
+    (prefetch queue, max_tasks_to_execute quota, graceful stop) - the components that decide what reaches callback()"""
+    from vt.props import _listen
+
+    c.cover("via_listen")
+    M = case["M"]
+    spec = {"M": M, "kinds": ["valid"] * M, "outcomes": ["return"] * M, "A": "sym", "P": "sym", "N": "sym" if case["cfg"] == "quota" else "none",
+            "wtt": None, "K": case["K"], "prefix": case["prefix"]}
+    r = _listen.run(c, spec)
+    ev = r.lab.ev
+    c.check(r.returned and not r.stuck, "run_completes", info=r.info)
+    for i in sorted({e[1] for e in ev if e[0] == "taken"}):
+        acks = sum(1 for e in ev if e[0] == "ack" and e[1] == i)
+        calls = sum(1 for e in ev if e[0] == "ack_call" and e[1] == i)
+        c.check(acks == 1 and calls == 1, "ack_exactly_once", msg=i, calls=calls, effects=acks, via="listen", A=r.A, P=r.P, N=r.N)
+        end = next((k for k, e in enumerate(ev) if e[0] == "task_end" and e[1] == i), -1)
+        pos = next((k for k, e in enumerate(ev) if e[0] == "ack" and e[1] == i), -1)
+        if pos >= 0:
+            c.check(end >= 0 and pos > end, "ack_when_saved_after_task_end_when_skipped", msg=i, via="listen")
+
+
+HARNESSES = {"harness": harness, "via_listen": via_listen}
